@@ -35,7 +35,7 @@ mcvars == <<vars, nid, hist>>
 
 Base(id, n, t, kd, k) ==
   [id |-> id, ni |-> n, typ |-> t, kind |-> kd, key |-> k, pl |-> "", nhs |-> <<>>,
-   bk |-> "", g |-> "", gni |-> "", bad |-> ""]
+   bk |-> "", g |-> "", gni |-> "", bad |-> "", eid |-> <<0, 0>>, noeid |-> TRUE]
 
 Ops(id) ==
        {[Base(id, n, t, "nh", k) EXCEPT !.pl = p] :
